@@ -1,6 +1,8 @@
 open Datatypes
 open Drv
-(* ---- C03 ---- ast <hex text> <ntop> (<kw hex> <arg: N | E | hex> <nsubs>)*
+(* ---- C03 ---- ast <hex text> <ntop> (<kw hex> <arg: N | E | hex> <line:col> <nsubs>)*
+   On an error the model reports a kind and a statement id; the id is printed as that statement's line:col
+   (as given in the case), so that it can be compared with the position prefix of the Go error message.
    The statement forest is given in prefix order; ids are assigned here in pre-order (the Go side numbers
    the statements of the parsed text the same way).  The first token (the YANG text) is for the Go side. *)
 
@@ -28,11 +30,13 @@ let hex_of_raw s =
 exception Bad_case
 
 (* parse one statement from the token list; returns (stmt, remaining tokens) *)
+let positions : (int, string) Hashtbl.t = Hashtbl.create 64
 let rec read_stmt ctr toks =
   match toks with
-  | kw :: arg :: n :: rest ->
+  | kw :: arg :: pos :: n :: rest ->
     let id = !ctr in
     incr ctr;
+    Hashtbl.replace positions id pos;
     let has, a = (match arg with "N" -> false, "" | "E" -> true, "" | h -> true, raw_of_hex h) in
     let subs, rest = read_list ctr (int_of_string n) rest in
     Ast.Stmt (coq_string_of (raw_of_hex kw), has, coq_string_of a, nat_of_int id, subs), rest
@@ -59,21 +63,31 @@ let rec dump b (Ast.Node (ty, name, src, par, fields, exts)) =
   Buffer.add_string b (Str_.concat "," (L.map (fun i -> string_of_int (int_of_nat i)) exts));
   Buffer.add_char b ']'
 
+let kind_name = function
+  | Ast.EUnknownStmt -> "unknown-statement" | Ast.EUnknownField -> "unknown-field" | Ast.ENoExt -> "no-ext"
+  | Ast.EAlreadySet -> "already-set" | Ast.EMissing -> "missing" | Ast.EMissingKind -> "missing-kind"
+  | Ast.EOtherKind -> "other-kind" | Ast.ENotModule -> "not-module"
+
 let do_ast toks =
   match toks with
   | _text :: n :: rest ->
     (try
+      Hashtbl.reset positions;
       let forest, rest = read_list (ref 0) (int_of_string n) rest in
       if rest <> [] then "bad-case" else
-      match Ast.parse_all YangSchema.schema forest with
-      | Outcome.Ok nodes ->
+      match Ast.parse_all_e YangSchema.schema forest with
+      | Ast.ROk nodes ->
         let b = Buffer.create 256 in
         Buffer.add_string b "ok";
         L.iter (fun nd -> Buffer.add_char b ' '; dump b nd) nodes;
         Buffer.contents b
-      | Outcome.Err -> "err"
-      | Outcome.Panic -> "PANIC"
-      | Outcome.Unmodelled -> "unmodelled"
+      | Ast.RErr (k, pos) ->
+        let p = (match pos with
+                 | None -> "nopos"
+                 | Some i -> (try Hashtbl.find positions (int_of_nat i) with Not_found -> "?")) in
+        "err " ^ p ^ " " ^ kind_name k
+      | Ast.RPanic -> "PANIC"
+      | Ast.RUnmodelled -> "unmodelled"
     with Bad_case | Failure _ -> "bad-case")
   | _ -> "bad-case"
 
